@@ -11,7 +11,7 @@ LEVEL_TEXT = (
     'label is the dequeued depth + 1 and initial states have depth 1; the share-out keeps the local '
     'queue order. Minimality itself is the textbook consequence for one thread and is not computed.')
 
-FLOORS = {'C13-R1': 2, 'C13-R2': 2, 'C13-R3': 2, 'C13-R4': 2, 'C13-R5': 1, 'C13-R6': 1}
+FLOORS = {'C13-R1': 2, 'C13-R2': 2, 'C13-R3': 2, 'C13-R4': 2, 'C13-R5': 1, 'C13-R6': 1, 'C01-R4': 5}
 
 ENDS = {'pop_back': 'back', 'pop_front': 'front', 'push_back': 'back', 'push_front': 'front'}
 
@@ -136,6 +136,15 @@ def run(ctx):
                       'state are evaluated before the other initial states (depth 0) - evaluation is no longer by '
                       'non-decreasing depth and the first witness found is not a shortest one' %
                       ('several batches' if len(pushes) > 1 else 'one batch per turn of a loop'))
+
+    # "finds a shortest witness" presupposes that BFS expands every state it evaluated (until nothing is awaited):
+    # a state that is recorded as a counterexample and then not expanded hides the shorter routes through it
+    import c01
+    from checkers import CB as _CB
+    ctx.doc('C01-R4', 'BFS check_block: from the dequeue every path to the next dequeue / return passes '
+                      'Model::actions or a sanctioned exit')
+    with ctx.rule('C01-R4', 'BFS'):
+        c01.r4_expand_or_sanctioned(ctx, _CB(F, 'BFS'))
 
     ctx.doc('C13-R5', 'single-thread order preservation: the BFS worker hands part of its queue to the market '
                       'only when thread_count > 1, or the broker splits off at most (thread_count - open_count) '
